@@ -25,6 +25,11 @@ def oracle_wedge(case, impl):
     return None
 
 
+def _oracle_tcpstream(case, impl):
+    from props.c01 import oracle_tcpstream
+    return oracle_tcpstream(case, impl)
+
+
 SPEC = dict(
         lean_module="NV.Props.C02",
         level_text="Termination of query.parse and of every dnsmessage loop it reaches is proved for all byte strings (fuel bound / "
@@ -37,7 +42,10 @@ SPEC = dict(
         areas=[dict(name="parse", n_quick=20000, n_thorough=400000, shards_thorough=8,
                     oracle=oracle_parse_total,
                     nontrivial=lambda c, i: not i.startswith("query ")),
-               dict(name="wedge", n_quick=8, n_thorough=120, shards_thorough=8, oracle=oracle_wedge, timeout=900)],
+               dict(name="wedge", n_quick=8, n_thorough=120, shards_thorough=8, oracle=oracle_wedge, timeout=900),
+               # one TCP connection as a byte stream (area shared with C01): frames of every announced length up to 65535, unparsable
+               # frames, empty / small / short tails - each frame longer than 14 bytes is answered, the daemon lives on
+               dict(name="tcpstream", n_quick=400, n_thorough=8000, shards_thorough=4, oracle=_oracle_tcpstream, timeout=900)],
         trusted=COMMON_TRUST + ["Go runtime: recover/defer, goroutine scheduling (deadline used as hang oracle)"],
         assumptions=["socket layer and goroutine scheduling are not modelled; liveness of the daemon after hostile input is observed by the wedge area (real sockets)"],
 )
